@@ -763,6 +763,10 @@ def explore(spec, opts=None, norm=False):
         for t, m in msgs:
             res.violations.append((t, m, hist))
 
+    res.quotient_pairs = 0
+    res.quotient_mismatch = []
+    checked_pairs = {}
+
     def visit(state, hist):
         c = canon(spec, state[0], state[1], norm)
         res.transitions += 1
@@ -773,6 +777,22 @@ def explore(spec, opts=None, norm=False):
             seen[c] = (hist, state)
             frontier.append(c)
             res.max_depth = max(res.max_depth, len(hist))
+        elif checked_pairs.get(c, 0) < 2 and _concrete_key(state) != _concrete_key(seen[c][1]):
+            # two different concrete states were merged: their futures must agree (one step, two events)
+            checked_pairs[c] = checked_pairs.get(c, 0) + 1
+            res.quotient_pairs += 1
+            for ev in (("RUN", None, None), ("RUN", "all", None)):
+                pa, _, ia = step(spec, seen[c][1], ev, anc, norm, False, order)
+                pb, _, ib = step(spec, state, ev, anc, norm, False, order)
+                res.runs += ia["runs"] + ib["runs"]
+                # (the relative order of unordered operations depends on address-based tie-breaks of the default
+                #  scheduler and is not compared: multiset of operations + presence/correctness of every store)
+                def bits(p):
+                    return tuple(x if x is None else x[1] for x in canon(spec, p[0], p[1], norm))
+                ka = (bits(pa), sorted((e[0], e[1]) for e in ia["world"].log))
+                kb = (bits(pb), sorted((e[0], e[1]) for e in ib["world"].log))
+                if ka != kb:
+                    res.quotient_mismatch.append((c, seen[c][0], hist, ev))
 
     def failruns(hist, state, out, fr, nops, pops=None):
         for k in range(1, nops + 1):
@@ -828,6 +848,11 @@ def explore(spec, opts=None, norm=False):
     res.states = len(seen)
     res.seen = seen
     return res
+
+
+def _concrete_key(state):
+    snap, versions, _ = state
+    return (tuple(sorted((i, v) for i, v in snap.items() if v is not None)), tuple(sorted(versions.items())))
 
 
 def replay_history(spec, hist, norm=False, do_dry=False, verbose=False, order="topo"):
